@@ -11,87 +11,69 @@ From DL Require Import Lib.Bytes Model.CommentText Proof.CommentTextFacts Model.
 Open Scope N_scope.
 
 (** The appended comment is read by the reference lexer as exactly one comment of exactly the
-    bytes the rule wrote: it is not terminated early and swallows nothing after it.
-    Multi-line texts: whatever follows.  Single-line texts: when followed by a line break or
-    the end of the file (what the generator emits after a line comment), and outside the two
-    recorded defect classes [Known_opener] / [Known_cr]. *)
+    bytes the rule wrote: it is not terminated early and swallows nothing after it.  For EVERY
+    non-empty text (since /repo commit d1a6e5c; before, texts starting with a long-bracket
+    opener and texts with a carriage return had to be excluded and were refuted by witnesses):
+    texts written in the long form ([block_form]: a line break, a carriage return, a leading
+    opener) whatever follows; the others when followed by a line break or the end of the file
+    (what the generator emits after a line comment, [C18_reference_line_comment_then_token]). *)
 Theorem C18_comment_closed : forall text follow, text <> [] ->
-  Known_opener text = false -> Known_cr text = false ->
-  (has_lf text = true \/ line_follow follow = true) ->
+  (block_form text = true \/ line_follow follow = true) ->
   lex_comment (comment_of text ++ follow) = Some (List.length (comment_of text)).
 Proof. exact comment_closed. Qed.
 Print Assumptions C18_comment_closed.
 Check C18_comment_closed : forall text follow, text <> [] ->
-  Known_opener text = false -> Known_cr text = false ->
-  (has_lf text = true \/ line_follow follow = true) ->
+  (block_form text = true \/ line_follow follow = true) ->
   lex_comment (comment_of text ++ follow) = Some (List.length (comment_of text)).
 
-Theorem C18_multiline_comment_closed : forall text follow, has_lf text = true ->
+Theorem C18_block_comment_closed : forall text follow, block_form text = true ->
   lex_comment (comment_of text ++ follow) = Some (List.length (comment_of text)).
-Proof. exact multiline_comment_closed. Qed.
-Print Assumptions C18_multiline_comment_closed.
-Check C18_multiline_comment_closed : forall text follow, has_lf text = true ->
+Proof. exact block_comment_closed. Qed.
+Print Assumptions C18_block_comment_closed.
+Check C18_block_comment_closed : forall text follow, block_form text = true ->
   lex_comment (comment_of text ++ follow) = Some (List.length (comment_of text)).
 
-(** The full statement (no carve-out) is false for the code as it is: three witnesses. *)
-Theorem C18_comment_closed_refuted_opener : exists text follow, text <> [] /\ Known_cr text = false /\
-  line_follow follow = true /\ Known_opener text = true /\
-  lex_comment (comment_of text ++ follow) = None.
-Proof. exact comment_closed_refuted_opener. Qed.
-Print Assumptions C18_comment_closed_refuted_opener.
-Check C18_comment_closed_refuted_opener : exists text follow, text <> [] /\ Known_cr text = false /\
-  line_follow follow = true /\ Known_opener text = true /\
-  lex_comment (comment_of text ++ follow) = None.
+(** The same for a Lua 5.1 lexer, which also rejects "[[" nested in a level-0 long bracket. *)
+Theorem C18_comment_closed_51 : forall text follow, text <> [] ->
+  (block_form text = true \/ line_follow follow = true) ->
+  lex_comment51 (comment_of text ++ follow) = Some (List.length (comment_of text)).
+Proof. exact comment_closed_51. Qed.
+Print Assumptions C18_comment_closed_51.
+Check C18_comment_closed_51 : forall text follow, text <> [] ->
+  (block_form text = true \/ line_follow follow = true) ->
+  lex_comment51 (comment_of text ++ follow) = Some (List.length (comment_of text)).
 
-Theorem C18_comment_closed_refuted_opener_swallows : exists text follow, text <> [] /\
-  Known_cr text = false /\ line_follow follow = true /\ Known_opener text = true /\
-  exists k, lex_comment (comment_of text ++ follow) = Some k /\ (List.length (comment_of text) < k)%nat.
-Proof. exact comment_closed_refuted_opener_swallows. Qed.
-Print Assumptions C18_comment_closed_refuted_opener_swallows.
-Check C18_comment_closed_refuted_opener_swallows : exists text follow, text <> [] /\
-  Known_cr text = false /\ line_follow follow = true /\ Known_opener text = true /\
-  exists k, lex_comment (comment_of text ++ follow) = Some k /\ (List.length (comment_of text) < k)%nat.
-
-Theorem C18_comment_closed_refuted_cr : exists text follow, text <> [] /\ Known_opener text = false /\
-  line_follow follow = true /\ Known_cr text = true /\
-  exists k, lex_comment (comment_of text ++ follow) = Some k /\ (k < List.length (comment_of text))%nat.
-Proof. exact comment_closed_refuted_cr. Qed.
-Print Assumptions C18_comment_closed_refuted_cr.
-Check C18_comment_closed_refuted_cr : exists text follow, text <> [] /\ Known_opener text = false /\
-  line_follow follow = true /\ Known_cr text = true /\
-  exists k, lex_comment (comment_of text ++ follow) = Some k /\ (k < List.length (comment_of text))%nat.
-
-(** The CR carve-out is exact: every text of the class breaks out of its comment. *)
-Theorem C18_known_cr_always_fails : forall text follow, Known_cr text = true -> Known_opener text = false ->
-  line_follow follow = true ->
-  exists k, lex_comment (comment_of text ++ follow) = Some k /\ (k < List.length (comment_of text))%nat.
-Proof. exact known_cr_always_fails. Qed.
-Print Assumptions C18_known_cr_always_fails.
-Check C18_known_cr_always_fails : forall text follow, Known_cr text = true -> Known_opener text = false ->
-  line_follow follow = true ->
-  exists k, lex_comment (comment_of text ++ follow) = Some k /\ (k < List.length (comment_of text))%nat.
-
-(** The chosen long-bracket level: its closer does not occur in the text. *)
+(** The chosen long-bracket level: neither its closer nor its opener occurs in the text, and it is
+    the least such level. *)
 Theorem C18_comment_level_ok : forall text,
-  find_sub (long_closer (comment_level text)) text = false.
+  find_sub (long_closer (comment_level text)) text = false /\
+  find_sub (long_opener (comment_level text)) text = false.
 Proof. exact comment_level_ok. Qed.
 Print Assumptions C18_comment_level_ok.
 Check C18_comment_level_ok : forall text,
-  find_sub (long_closer (comment_level text)) text = false.
+  find_sub (long_closer (comment_level text)) text = false /\
+  find_sub (long_opener (comment_level text)) text = false.
+
+Theorem C18_comment_level_least : forall text m, (m < comment_level text)%nat ->
+  find_sub (long_closer m) text || find_sub (long_opener m) text = true.
+Proof. exact comment_level_least. Qed.
+Print Assumptions C18_comment_level_least.
+Check C18_comment_level_least : forall text m, (m < comment_level text)%nat ->
+  find_sub (long_closer m) text || find_sub (long_opener m) text = true.
 
 (** The text appears verbatim inside the comment, between "--" (or "--[=*[\n") and the closer. *)
 Theorem C18_text_inside : forall text, text <> [] ->
   exists pre post, comment_of text = pre ++ text ++ post /\
-    (has_lf text = false -> pre = [45; 45] /\ post = []) /\
-    (has_lf text = true -> pre = [45; 45] ++ long_opener (comment_level text) ++ [10] /\
-                           post = [10] ++ long_closer (comment_level text)).
+    (block_form text = false -> pre = [45; 45] /\ post = []) /\
+    (block_form text = true -> pre = [45; 45] ++ long_opener (comment_level text) ++ [10] /\
+                               post = [10] ++ long_closer (comment_level text)).
 Proof. exact text_inside. Qed.
 Print Assumptions C18_text_inside.
 Check C18_text_inside : forall text, text <> [] ->
   exists pre post, comment_of text = pre ++ text ++ post /\
-    (has_lf text = false -> pre = [45; 45] /\ post = []) /\
-    (has_lf text = true -> pre = [45; 45] ++ long_opener (comment_level text) ++ [10] /\
-                           post = [10] ++ long_closer (comment_level text)).
+    (block_form text = false -> pre = [45; 45] /\ post = []) /\
+    (block_form text = true -> pre = [45; 45] ++ long_opener (comment_level text) ++ [10] /\
+                               post = [10] ++ long_closer (comment_level text)).
 
 (** Location [start]: the line shift applied to every token equals the number of line breaks
     put in front of the file (comment + "\n"). *)
@@ -103,20 +85,13 @@ Check C18_shift_exact : forall text, text <> [] ->
   shift_amount text = count_lf (start_insertion text).
 
 (** The generator's own classification of the appended comment (it decides whether a line
-    break is forced before the next token). *)
-Theorem C18_multiline_recognised : forall text, has_lf text = true ->
-  is_single_line_comment (comment_of text) = false.
-Proof. exact multiline_recognised. Qed.
-Print Assumptions C18_multiline_recognised.
-Check C18_multiline_recognised : forall text, has_lf text = true ->
-  is_single_line_comment (comment_of text) = false.
-
-Theorem C18_singleline_recognised : forall text, text <> [] -> has_lf text = false ->
-  Known_opener text = false -> is_single_line_comment (comment_of text) = true.
-Proof. exact singleline_recognised. Qed.
-Print Assumptions C18_singleline_recognised.
-Check C18_singleline_recognised : forall text, text <> [] -> has_lf text = false ->
-  Known_opener text = false -> is_single_line_comment (comment_of text) = true.
+    break is forced before the next token) is the form the rule chose, for every text. *)
+Theorem C18_comment_form_recognised : forall text, text <> [] ->
+  is_single_line_comment (comment_of text) = negb (block_form text).
+Proof. exact comment_form_recognised. Qed.
+Print Assumptions C18_comment_form_recognised.
+Check C18_comment_form_recognised : forall text, text <> [] ->
+  is_single_line_comment (comment_of text) = negb (block_form text).
 
 (** The generator's classification of ANY comment is the reference lexer's (a long comment exactly
     when a long-bracket opener follows "--").  Before /repo commit fc507f0 this was refuted by
@@ -225,16 +200,24 @@ Check C18_generator_swallows_refuted :
      = of_string "a--- c" /\
    lex_comment (of_string "--- c") = Some 5%nat).
 
-(** non-vacuity: the hypotheses of [C18_comment_closed] are met by non-trivial texts *)
+(** non-vacuity, and the formerly recorded witnesses *)
 Example C18_example_multiline :
   let text := [120; 93; 93; 10; 121; 93; 61; 93; 10; 122; 93] in   (* "x]]\ny]=]\nz]" *)
-  text <> [] /\ Known_opener text = false /\ Known_cr text = false /\ has_lf text = true /\
-  comment_level text = 2%nat /\
-  lex_comment (comment_of text ++ [10; 102; 40; 41]) = Some (List.length (comment_of text)).
+  text <> [] /\ block_form text = true /\ comment_level text = 2%nat /\
+  lex_comment51 (comment_of text ++ [10; 102; 40; 41]) = Some (List.length (comment_of text)).
 Proof. vm_compute. repeat split. discriminate. Qed.
 
 Example C18_example_singleline :
   let text := [93; 93; 32; 45; 45; 32; 91; 97; 91] in   (* "]] -- [a[" *)
-  text <> [] /\ Known_opener text = false /\ Known_cr text = false /\ line_follow [10; 102] = true /\
+  text <> [] /\ block_form text = false /\ line_follow [10; 102] = true /\
   lex_comment (comment_of text ++ [10; 102]) = Some (List.length (comment_of text)).
 Proof. vm_compute. repeat split. discriminate. Qed.
+
+Example C18_example_formerly_refuted :
+  (let text := of_string "[[ hello" in
+   block_form text = true /\ comment_level text = 1%nat /\
+   lex_comment51 (comment_of text ++ of_string "print(1)]]") = Some (List.length (comment_of text))) /\
+  (let text := [97; 13; 112; 114; 105; 110; 116; 40; 50; 41] in   (* "a\rprint(2)" *)
+   block_form text = true /\ lex_comment (comment_of text ++ [10]) = Some (List.length (comment_of text))) /\
+  comment_level [97; 10; 91; 91; 98] = 1%nat.   (* "a\n[[b": level 1, no "[[" nested at level 0 *)
+Proof. vm_compute. repeat split. Qed.
